@@ -256,7 +256,7 @@ func funcFieldRule(c *Ctx, r *Report, rule string, reach map[*ssa.Function]bool)
 			}
 			if !guarded {
 				for _, g := range exitGuardsCached(fn) {
-					if !g.Head.Dominates(ci.Block()) || g.Head == ci.Block() || g.Exit.Dominates(ci.Block()) {
+					if !g.Head.Dominates(ci.Block()) || g.Head == ci.Block() || g.Exit.Dominates(ci.Block()) || insideChain(g, ci.Block()) {
 						continue
 					}
 					nilIdx, allKnown := -1, true
